@@ -88,3 +88,13 @@ info('C05',
      ['LAPACK numerics; the charge/leg bookkeeping of qr/_svd_worker as deductive obligations is not built (bounded only)',
       'svd(full_matrices=True): known finding F-25, excluded from the bounded domain'],
      [A_BUILD], configs=BOTH)
+info('C06',
+     'P: _make_stride (both styles, loop invariant stride = running product), LegCharge.get_qindex (block and offset of a flat '
+     'index, IndexError iff out of range). '
+     'B (bounded; exhaustive for the stated small-leg domain in the thorough tier): every LegPipe over all small legs '
+     '(<= 3 blocks, sizes <= 2, charge window, mod 1..3), 1-2 legs exhaustively and 3-4 legs sampled, both outgoing directions, '
+     'sort/bunch on/off: index map bijective, fusion rule per index, agreement with combine_legs placement, combine o split = id, '
+     'truthful flags; sort/bunch/project/extend/flip/conj preserve the charge of every surviving index; both configurations.',
+     ['LegPipe._init_from_legs / map_incoming_flat as deductive obligations: not built (bounded only)',
+      'quick tier strides through the pair domain (every 11th pair); only the thorough tier is exhaustive'],
+     [A_BUILD], configs=BOTH)
